@@ -50,7 +50,7 @@ def queries(tier, kfs):
                 qs.append(Query(qid + '.kf', 'router.cpp', 'c04.c', ud, hd, unwind=unwind, bounds=bounds, timeout=timeout,
                                 expect='finding', kf='KF-C04-tiny-slope', diff=0))
         else:
-            qs.append(Query(qid, 'router.cpp', 'c04.c', ud, hd, unwind=unwind, bounds=bounds, timeout=timeout))
+            qs.append(Query(qid, 'router.cpp', 'c04.c', ud, hd, unwind=unwind, bounds=bounds, timeout=timeout, solver='race'))
 
     # arithmetic lemma assumed by the harness (sign of the slope follows the elevation order), all finite a, b, d > 0
     qs.append(Query('lemma_slope.symbolic_d', 'lemma.cpp', 'lemma_slope.c', {}, {}, unwind=4, bounds=dict(a='any finite', b='any finite', d='any finite > 0')))
@@ -59,7 +59,7 @@ def queries(tier, kfs):
     # real profile grids (grid construction included in the encoding)
     prof = []
     if quick:
-        for n, looped in ((3, 0), (3, 1), (4, 0), (5, 1)):
+        for n, looped in ((3, 0), (3, 1), (4, 0), (4, 1)):
             sm = 0 if looped else (1 | 1 << (n - 1))
             prof += [(n, looped, 1, sm, None, '3.0'), (n, looped, 1, 0, 1 << (n - 1), '3.0')]
         prof += [(4, 0, 0, 0b1001, None, '1.0'), (4, 1, 0, 0b0100, 0b0010, '0.3')]
@@ -73,7 +73,7 @@ def queries(tier, kfs):
                             prof.append((n, looped, cache, bl, mk, '3.0' if (bl + (mk or 0)) % 2 else '0.7'))
     prof = [p + (0,) for p in prof]
     # apply_par path (blocks executed one after the other): must equal the sequential semantics
-    prof += [(4, 0, 1, 0b1001, None, '3.0', 2), (4, 0, 1, 0b0100, 0b0010, '3.0', 3), (3, 0, 1, 0, None, '3.0', 2), (5, 1, 1, 0b00001, 0b00100, '3.0', 4)]
+    prof += [(4, 0, 1, 0b1001, None, '3.0', 2), (4, 0, 1, 0b0100, 0b0010, '3.0', 3), (3, 0, 1, 0, None, '3.0', 2), (4, 1, 1, 0b0001, 0b0100, '3.0', 4)]
     if not quick:
         prof += [(5, 0, 1, 0b00010, None, '0.7', 2), (6, 0, 0, 0b100000, 0b000100, '3.0', 3), (4, 1, 0, 0, None, '0.7', 16)]
     for (n, looped, cache, bl, mk, sp, thr) in prof:
@@ -86,15 +86,15 @@ def queries(tier, kfs):
         add('profile%d%s.c%d.bl%x.m%s.s%s.t%d' % (n, 'L' if looped else '', cache, bl, 'x' if mk is None else '%x' % mk, sp, thr),
             ud, hd, 3 * n + 3, dict(grid='profile_grid (real)', N=n, looped=looped, cache=cache, BL=bl, mask=mk, spacing=sp, threads=thr))
     # table grids dumped from the real raster / mesh classes
-    tabs = ['raster_rook_2x2_fixed', 'raster_rook_2x3_hloop', 'raster_queen_2x3_fixed', 'raster_bishop_2x3_fixed', 'mesh_quad4']
+    tabs = ['raster_rook_2x2_fixed', 'raster_rook_2x3_hloop', 'raster_queen_2x2_fixed', 'mesh_quad4']
     if not quick:
-        tabs += ['raster_rook_3x3_fixed', 'raster_queen_3x3_fixed', 'raster_bishop_3x3_fixed', 'mesh_fan5',
+        tabs += ['raster_queen_2x3_fixed', 'raster_bishop_2x3_fixed', 'raster_rook_3x3_fixed', 'raster_queen_3x3_fixed', 'raster_bishop_3x3_fixed', 'mesh_fan5',
                  'raster_rook_3x3_bloop', 'raster_rook_3x2_vloop', 'raster_queen_3x3_bloop', 'raster_queen_2x2_bloop', 'raster_bishop_3x3_hloop',
                  'raster_rook_2x4_fixed', 'raster_queen_3x4_fixed', 'mesh_strip6', 'mesh_quad4', 'raster_rook_3x4_hloop']
     for t in tabs:
         n, d = table_info(t)
         sm = status_mask(t)
-        combos = [(sm, None, 0), (1 << (n // 2), 1 << (n - 1), 0), (1 << (n - 1), 1, 2)] if quick else \
+        combos = ([(sm, None, 0), (1 << (n // 2), 1 << (n - 1), 0), (1 << (n - 1), 1, 2)] if n <= 4 else [(sm, None, 0), (1 << (n // 2), 1 << (n - 1), 2)]) if quick else \
             [(bl, mk, (bl + (mk or 0)) % 3) for bl in bl_sets(n, sm, tier) for mk in masks(n, tier)[:4]]
         for bl, mk, thr in combos:
             hd = dict(N=n, D=d, GRID=1, BLMASK=bl, USE_MASK=0 if mk is None else 1, TABLE='"%s.h"' % t, THREADS=thr)
@@ -103,4 +103,9 @@ def queries(tier, kfs):
             ud = dict(FSV_GRID=1, FSV_N=n, FSV_D=d, FSV_CACHE=1)
             add('%s.bl%x.m%s.t%d' % (t, bl, 'x' if mk is None else '%x' % mk, thr), ud, hd, n * (d + 1) + 3,
                 dict(grid='table:' + t, N=n, D=d, BL=bl, mask=mk, threads=thr), timeout=900 if quick else 3600)
+    if quick:
+        # the every-change tier keeps one query per kind of configuration (about half); the rest runs in the thorough tier
+        keep = ('lemma', 'profile3.c1.bl5.mx', 'profile3L.c1.bl0.m4', 'profile4.c1.bl9.mx', 'profile4.c1.bl0.m8', 'profile4L.c1.bl0.mx', 'profile4.c0', 'profile4L.c0',
+                '.t2', '.t3', '.t4', 'rook_2x2_fixed.blf', 'rook_2x3_hloop.bl8', 'queen_2x2_fixed.bl4', 'mesh_quad4.blf')
+        qs = [q for q in qs if any(k in q.qid for k in keep) and 'rook_2x3_hloop.bl20' not in q.qid and not ('rook_2x3_hloop' in q.qid and '.t2' in q.qid)]
     return qs
